@@ -421,6 +421,8 @@ class FnEmitter:
         if k in ('CallExpr', 'CXXMemberCallExpr', 'CXXOperatorCallExpr'):
             r = self.call(e)
             return r  # call() returns lvalue text for reference-returning callees
+        if k == 'BinaryOperator' and e['opcode'] == ',':
+            return '(*(%s, %s))' % (self.val(ch[0]), simp_addr(self.lv(ch[1])))
         if k == 'BinaryOperator' and e['opcode'] == '=':
             r = self.rv_conv(ch[1])
             x = self.lv(ch[0])
@@ -484,6 +486,21 @@ class FnEmitter:
         raise Unsupported('static member ' + str(nm))
 
     def rv_conv(self, e):
+        return self.val(e)
+
+    def discard(self, e):
+        """discarded-value expression (for-increment): no lvalue plumbing needed"""
+        k = e.get('kind')
+        ch = children(e)
+        if k == 'BinaryOperator' and e.get('opcode') == ',':
+            return '%s, %s' % (self.discard(ch[0]), self.discard(ch[1]))
+        if k == 'UnaryOperator' and e.get('opcode') in ('++', '--'):
+            x = self.lv(ch[0])
+            return '%s%s' % (x, e['opcode']) if e.get('isPostfix') else '%s%s' % (e['opcode'], x)
+        if k in ('CStyleCastExpr', 'CXXFunctionalCastExpr', 'CXXStaticCastExpr') and e.get('castKind') == 'ToVoid':
+            return self.discard(ch[-1])
+        if k in ('ParenExpr', 'ExprWithCleanups'):
+            return self.discard(ch[0])
         return self.val(e)
 
     # -------------------------------------------------------------- rvalues
@@ -851,6 +868,9 @@ class FnEmitter:
             raise Unsupported('numeric_limits %s of %s' % (name, ct))
         if thisarg is None and name == 'make_move_iterator' and len(args) == 1:
             return '(%s){%s}' % (self.ctype(e), self.val(args[0]))
+        if name == '__assert_fail':
+            self.f.l0.add('L0_assert_fail')
+            return 'L0_assert_fail()'
         if name == '__builtin_expect':
             return self.val(args[0])
         # -- element special members
@@ -1090,7 +1110,7 @@ class FnEmitter:
             if init.get('kind'):
                 self.stmt(init, out, ind + '  ')
             pc, ctext = self.sub_scoped(cond, self.rv) if cond.get('kind') else ([], '1')
-            pi, itext = self.sub_scoped(inc, self.val) if inc.get('kind') else ([], '')
+            pi, itext = self.sub_scoped(inc, self.discard) if inc.get('kind') else ([], '')
             if pc or pi:
                 raise Unsupported('loop condition/increment with hoisted calls')
             self.loopn += 1
